@@ -415,7 +415,10 @@ fn other_cases(tier: Tier, ellipsoids: &[String]) -> Vec<Case> {
     }
     for from in ["mean", "zero", "free"] {
         for to in ["mean", "zero", "free"] {
-            cases.push(simple(&format!("permtide [{from}->{to}]"), &format!("permtide from={from} to={to} ellps=GRS80"), geo.clone(), Metric::Height, 1e-5));
+            // (a closed form: the round trip is exact to rounding; 0.1 um leaves six orders of magnitude of room)
+            for ellps in ["GRS80", "intl", "bessel", "sphere", "mprts"] {
+                cases.push(simple(&format!("permtide [{from}->{to}]"), &format!("permtide from={from} to={to} ellps={ellps}"), geo.clone(), Metric::Height, 1e-7));
+            }
         }
     }
     // --- exact conversions
